@@ -163,7 +163,7 @@ void h_gc_call(void) {
   g_pushed_k = g_evicted_k = g_removed_k = g_removed_total = g_pushed_total = 0; g_children_calls = 0;
   g_copied_pending = g_added_versions = 0; g_join_name = NULL; g_parse_calls = g_join_calls = 0; g_joined_k = 0;
   g_keep_k = KEEP_K(db);
-  g_gc_allowed = 1;
+  g_gc_allowed = 1; g_unprotected_outputs = 0;
   ldb_remove_obsolete_files(db);
   CANARY();
 }
